@@ -235,6 +235,9 @@ func runAdv(t *testing.T, out *vfh.Out, op string, min, max time.Duration, unica
 
 		dead := false
 		for _, e := range evs {
+			if e.t >= stop {
+				break // the interface is stopped before this message arrives
+			}
 			if d := e.t - time.Since(start); d > 0 {
 				time.Sleep(d)
 			}
